@@ -821,3 +821,8 @@ def run(ctx):
     for rr in ctx.rules:
         if rr.id == "C16.R13":
             rr.id = "C11.R13"
+    from . import c10
+    ctx.guard(c10.rule_nego_release)      # a peer that botches the handshake costs nothing that stays: the pipe's last reference is given back
+    for rr in ctx.rules:
+        if rr.id == "C10.R16":
+            rr.id = "C11.R16"
